@@ -399,6 +399,8 @@ class SB:
     def __eq__(self, o):
         if isinstance(o, (bool, np.bool_)):
             return self if o else snot(self)
+        if isinstance(o, (int, np.integer)) and int(o) in (0, 1):
+            return self if int(o) == 1 else snot(self)      # `success == 0` on a boolean
         if isinstance(o, SB):
             return sor(sand(self, o), sand(snot(self), snot(o)))
         return NotImplemented
